@@ -11,7 +11,9 @@ SIMPLE_NAMES = ["a", "b", "c", "d", "e"]
 NASTY_NAMES = ["", "'", '"', "\\", "\\'", "a'b", 'a"b', "\b", "\f", "\n", "\r", "\t", "\x00", "\x01", "\x0b",
                "\x1f", "\x7f", "\x80", " ", "\ud7ff", "\ue000", "\uffff", "\U00010000", "\U0001F600",
                "\U0010FFFF", "0", "-1", "1", "a b", "a.b", "*", "$", "@", "\u00e9", "\u263a", "/", "\\u0041", "a\\",
-               "\\\\", "''", "\u2028", "a-b", "_", "A1"]
+               "\\\\", "''", "\u2028", "a-b", "_", "A1",
+               # plain text followed by exactly one control character; names that change under Unicode normalisation
+               "a\n", "line\n", "a\r", "ab\t", "a\n\n", "\nline", "e\u0301", "\u212b", "\uf900", "\u1100\u1161", "\ufb01"]
 SCALARS = [None, True, False, 0, 1, -1, 2, 3, 10, 0.0, -0.0, 1.0, 1.5, -2.5, 1e100, "", "a", "b", "ab", "abc", "A",
            "\u00e9", "\U0001F600", "\uffff", LIM, -LIM, 0.1, 100, 100.0]
 FALSY = [None, False, 0, 0.0, -0.0, "", [], {}]
